@@ -11,6 +11,7 @@ import (
 	"fmt"
 	"math/rand"
 	"os"
+	"sort"
 	"time"
 
 	"github.com/paulmach/osm"
@@ -27,10 +28,14 @@ type el struct {
 	Pay     int64
 }
 
+// tsOf gives objects (identified by their unique payload) a Timestamp in Unix seconds; absent =
+// the zero time.Time.  Not sent to Coq: the predecessor is chosen by version number alone.
+var tsOf = map[int64]int64{}
+
 var kindName = []string{"node", "way", "relation"}
 
 func (e el) desc() map[string]interface{} {
-	return map[string]interface{}{"kind": kindName[e.Kind], "id": e.ID, "version": e.Version, "visible": e.Visible, "payload": e.Pay}
+	return map[string]interface{}{"kind": kindName[e.Kind], "id": e.ID, "version": e.Version, "visible": e.Visible, "payload": e.Pay, "timestamp_unix": tsOf[e.Pay]}
 }
 
 type dsEntry struct {
@@ -44,6 +49,12 @@ type dsEntry struct {
 	DelayMS int
 }
 
+type aliasSpec struct {
+	Kind int
+	ID   int64
+	K    int
+}
+
 type sectionT [3][]el
 
 type caseIn struct {
@@ -51,6 +62,11 @@ type caseIn struct {
 	// NFT: the data source's NotFound also answers true for *annotate.NoVisibleChildError
 	// (the interface leaves this open; the outcome must not depend on it)
 	NFT bool
+	// Alias: the modify section's list of this kind IS the first K entries of the history slice
+	// of (Kind, ID) that the data source hands out (same objects, same backing array)
+	Alias *aliasSpec
+	// NilDS: the data source passed to Change is a nil interface (only legal for create-only changes)
+	NilDS bool
 	DS       []dsEntry
 	Sections [3]*sectionT // create, modify, delete; nil = section absent
 }
@@ -104,14 +120,20 @@ func (d *ds) RelationHistory(ctx context.Context, id osm.RelationID) (osm.Relati
 	return d.HistoryDatasource.RelationHistory(ctx, id)
 }
 
+func stamp(e el) time.Time {
+	if tsOf[e.Pay] == 0 {
+		return time.Time{}
+	}
+	return time.Unix(tsOf[e.Pay], 0).UTC()
+}
 func mkNode(e el) *osm.Node {
-	return &osm.Node{ID: osm.NodeID(e.ID), Version: e.Version, Visible: e.Visible, ChangesetID: osm.ChangesetID(e.Pay)}
+	return &osm.Node{ID: osm.NodeID(e.ID), Version: e.Version, Visible: e.Visible, ChangesetID: osm.ChangesetID(e.Pay), Timestamp: stamp(e)}
 }
 func mkWay(e el) *osm.Way {
-	return &osm.Way{ID: osm.WayID(e.ID), Version: e.Version, Visible: e.Visible, ChangesetID: osm.ChangesetID(e.Pay)}
+	return &osm.Way{ID: osm.WayID(e.ID), Version: e.Version, Visible: e.Visible, ChangesetID: osm.ChangesetID(e.Pay), Timestamp: stamp(e)}
 }
 func mkRel(e el) *osm.Relation {
-	return &osm.Relation{ID: osm.RelationID(e.ID), Version: e.Version, Visible: e.Visible, ChangesetID: osm.ChangesetID(e.Pay)}
+	return &osm.Relation{ID: osm.RelationID(e.ID), Version: e.Version, Visible: e.Visible, ChangesetID: osm.ChangesetID(e.Pay), Timestamp: stamp(e)}
 }
 
 func mkOSM(s *sectionT) *osm.OSM {
@@ -222,11 +244,35 @@ func run(in *caseIn) obsT {
 		}
 	}
 	change := &osm.Change{Create: mkOSM(in.Sections[0]), Modify: mkOSM(in.Sections[1]), Delete: mkOSM(in.Sections[2])}
+	if a := in.Alias; a != nil {
+		if change.Modify == nil {
+			change.Modify = &osm.OSM{}
+		}
+		switch a.Kind {
+		case 0:
+			change.Modify.Nodes = h.Nodes[osm.NodeID(a.ID)][:a.K]
+		case 1:
+			change.Modify.Ways = h.Ways[osm.WayID(a.ID)][:a.K]
+		case 2:
+			change.Modify.Relations = h.Relations[osm.RelationID(a.ID)][:a.K]
+		}
+	}
 	var opts []annotate.Option
 	if in.Ign > 0 {
 		opts = append(opts, annotate.IgnoreMissingChildren(in.Ign == 2))
 	}
-	diff, err := annotate.Change(context.Background(), change, d, opts...)
+	var src osm.HistoryDatasourcer = d
+	if in.NilDS {
+		src = nil
+	}
+	diff, err := func() (d *osm.Diff, e error) {
+		defer func() {
+			if r := recover(); r != nil {
+				d, e = nil, fmt.Errorf("panic: %v", r)
+			}
+		}()
+		return annotate.Change(context.Background(), change, src, opts...)
+	}()
 	var o obsT
 	if err != nil {
 		o.ErrText = err.Error()
@@ -354,7 +400,7 @@ func mkCase(in *caseIn, mut func(*obsT)) *wire.Case {
 			"error_elem_kind": o.EK, "error_id_or_code": o.EID, "error": o.ErrText}
 	}
 	c.Desc = map[string]interface{}{"op": "annotate.Change", "option": []string{"none", "IgnoreMissingChildren(false)", "IgnoreMissingChildren(true)"}[in.Ign],
-		"datasource": dds, "notfound_accepts_typed_error": in.NFT, "change": dsec, "observed": obs}
+		"datasource": dds, "notfound_accepts_typed_error": in.NFT, "modify_list_aliases_history_prefix": in.Alias, "nil_datasource": in.NilDS, "change": dsec, "observed": obs}
 	return c
 }
 
@@ -567,12 +613,19 @@ func (g *gen) genRepeated() *caseIn {
 			vs = append(vs, v)
 			v += 1 + g.rng.Intn(3)
 		}
-		// sections: non-decreasing (modify ... then delete), several shapes
+		// sections: non-decreasing (create? modify ... then delete), several shapes
 		cut := g.rng.Intn(occ + 1) // occurrences [0,cut) in modify, the rest in delete
+		createFirst := g.rng.Intn(3) == 0
 		for i, ov := range vs {
 			si := 1
 			if i >= cut {
 				si = 2
+			}
+			if i == 0 && createFirst {
+				si = 0
+				if in.Sections[0] == nil {
+					in.Sections[0] = &sectionT{}
+				}
 			}
 			in.Sections[si][k] = append(in.Sections[si][k], el{k, id, ov, g.rng.Intn(2) == 0, g.nextPay()})
 		}
@@ -592,7 +645,15 @@ func (g *gen) genRepeated() *caseIn {
 		if len(h.Hist) == 0 {
 			h.Hist = []el{}
 		}
-		in.DS = append(in.DS, h)
+		switch g.rng.Intn(6) {
+		case 0: // the data source knows nothing about the element: no entry at all
+			g.w.Count("repeated:no-history")
+		case 1:
+			in.DS = append(in.DS, dsEntry{Kind: k, ID: id, Status: 1})
+			g.w.Count("repeated:not-found")
+		default:
+			in.DS = append(in.DS, h)
+		}
 	}
 	// unrelated single elements mixed in
 	for x := 0; x < g.rng.Intn(3); x++ {
@@ -655,6 +716,67 @@ func (g *gen) genExtreme() *caseIn {
 	return in
 }
 
+// stampAll gives the elements of a case and their history entries timestamps from a pool of
+// three values one second apart, so that a predecessor with the same or a later timestamp than
+// the element is common (bots upload two versions within a second; clocks step).
+func (g *gen) stampAll(in *caseIn) {
+	if g.rng.Intn(2) == 0 {
+		return
+	}
+	t0 := int64(1500000000 + g.rng.Intn(1000))
+	pick := func() int64 {
+		if g.rng.Intn(6) == 0 {
+			return 0
+		}
+		return t0 + int64(g.rng.Intn(3))
+	}
+	for _, s := range in.Sections {
+		if s == nil {
+			continue
+		}
+		for k := range s {
+			for i := range s[k] {
+				tsOf[s[k][i].Pay] = pick()
+			}
+		}
+	}
+	for i := range in.DS {
+		for j := range in.DS[i].Hist {
+			tsOf[in.DS[i].Hist[j].Pay] = pick()
+		}
+	}
+	g.w.Count("timestamps:set")
+}
+
+// genAliased: the list of modified elements of one kind is a prefix of the very slice the data
+// source returns as that element's history (a history replayed against itself, newest first or
+// unsorted).  All objects are visible and the section is `modify`, so that the visibility stamping
+// of the unchanged code writes nothing new into the shared objects.
+func (g *gen) genAliased() *caseIn {
+	in := &caseIn{Ign: g.rng.Intn(3), NFT: g.rng.Intn(3) == 0}
+	k := g.rng.Intn(3)
+	id := int64(1 + g.rng.Intn(50))
+	n := 3 + g.rng.Intn(4)
+	vs := g.rng.Perm(n + 2)[:n] // distinct versions 0..n+1
+	switch g.rng.Intn(3) {
+	case 0: // newest first
+		sort.Sort(sort.Reverse(sort.IntSlice(vs)))
+	case 1: // oldest first (already sorted histories must behave the same)
+		sort.Ints(vs)
+	}
+	h := dsEntry{Kind: k, ID: id}
+	for _, v := range vs {
+		h.Hist = append(h.Hist, el{k, id, v, true, g.nextPay()})
+	}
+	K := 2 + g.rng.Intn(n-1)
+	in.DS = []dsEntry{h}
+	s := &sectionT{}
+	s[k] = append([]el(nil), h.Hist[:K]...)
+	in.Sections[1] = s
+	in.Alias = &aliasSpec{Kind: k, ID: id, K: K}
+	return in
+}
+
 func interleaveByID(rng *rand.Rand, l []el) []el {
 	by := map[int64][]el{}
 	var keys []int64
@@ -683,13 +805,14 @@ func main() {
 	rng := wire.Rng(a.Seed)
 	w := wire.NewWriter("C13", a.Seed, a.Tier)
 	g := &gen{rng: rng, w: w, pay: 1000}
-	w.Rule = "osmChange with 0-4 nodes/ways/relations per create/modify/delete section (sections sometimes nil), histories per element: absent, nil slice, empty, other data-source error, 1-6 entries unsorted/ascending/descending with gaps, version 0, later versions, duplicates of the new version and of each other, nothing below; option none / IgnoreMissingChildren(false) / (true); every object carries a distinct payload (changeset id). Single-element changes exercise the predecessor search alone; large cases put 16-40 elements of one kind in a section and give the data source uneven per-id latency (first elements slowest: order must not depend on it); repeated cases let the same element occur 2-4 times across/within modify and delete with increasing versions (each occurrence has its own predecessor); extreme cases use ids from {negative, 0, 2^16, 2^40, 2^44, 2^62, MaxInt64} and versions from {.., 65535, 65536, 65537, 2^31-1} with a predecessor always present. distinct = distinct token streams; trivial = empty change. History versions are >= 0 (the domain of the property; OSM versions start at 1)."
+	w.Rule = "osmChange with 0-4 nodes/ways/relations per create/modify/delete section (sections sometimes nil), histories per element: absent, nil slice, empty, other data-source error, 1-6 entries unsorted/ascending/descending with gaps, version 0, later versions, duplicates of the new version and of each other, nothing below; option none / IgnoreMissingChildren(false) / (true); every object carries a distinct payload (changeset id). Single-element changes exercise the predecessor search alone; large cases put 16-40 elements of one kind in a section and give the data source uneven per-id latency (first elements slowest: order must not depend on it); repeated cases let the same element occur 2-4 times across/within modify and delete with increasing versions (each occurrence has its own predecessor); extreme cases use ids from {negative, 0, 2^16, 2^40, 2^44, 2^62, MaxInt64} and versions from {.., 65535, 65536, 65537, 2^31-1} with a predecessor always present; elements and history entries carry timestamps from a pool one second apart (predecessor at the same or a later instant than the element) or none; aliased cases make the modify list of one kind a prefix of the very history slice the data source returns (newest first / unsorted / sorted); repeated elements may start in the create section and have no history at all. distinct = distinct token streams; trivial = empty change. History versions are >= 0 (the domain of the property; OSM versions start at 1)."
 	nChange, nSingle, nLarge, nRepeat := 380, 340, 40, 160
-	nExtreme := 150
+	nExtreme, nAlias := 150, 120
 	if a.Tier == "thorough" {
 		nChange, nSingle, nLarge, nRepeat = 8000, 8000, 400, 4000
-		nExtreme = 3000
+		nExtreme, nAlias = 3000, 2500
 	}
+	nAlias = int(float64(nAlias) * a.Scale)
 	nExtreme = int(float64(nExtreme) * a.Scale)
 	nChange = int(float64(nChange) * a.Scale)
 	nSingle = int(float64(nSingle) * a.Scale)
@@ -752,6 +875,44 @@ func main() {
 		c = mkCase(in, nil)
 		c.Class = "corpus"
 		w.Add(c)
+		// the modified nodes ARE the first two entries of the newest-first history slice
+		in = &caseIn{}
+		hist := []el{{0, 9, 3, true, g.nextPay()}, {0, 9, 2, true, g.nextPay()}, {0, 9, 1, true, g.nextPay()}}
+		in.DS = []dsEntry{{Kind: 0, ID: 9, Hist: hist}}
+		in.Sections[1] = &sectionT{append([]el(nil), hist[:2]...), nil, nil}
+		in.Alias = &aliasSpec{Kind: 0, ID: 9, K: 2}
+		c = mkCase(in, nil)
+		c.Class = "corpus"
+		w.Add(c)
+		// predecessor uploaded in the same second as the element, and one with a later clock
+		in = &caseIn{}
+		mkT := func(k int, id int64, v int, ts int64) el {
+			e := el{k, id, v, true, g.nextPay()}
+			tsOf[e.Pay] = ts
+			return e
+		}
+		in.Sections[1] = &sectionT{{mkT(0, 5, 3, 1500000000)}, {mkT(1, 6, 2, 1500000000)}, nil}
+		in.DS = []dsEntry{{Kind: 0, ID: 5, Hist: []el{mkT(0, 5, 1, 1499999990), mkT(0, 5, 2, 1500000000)}},
+			{Kind: 1, ID: 6, Hist: []el{mkT(1, 6, 1, 1500000007)}}}
+		c = mkCase(in, nil)
+		c.Class = "corpus"
+		w.Add(c)
+		// created and then modified in the same change, the data source knows nothing: ignore-missing
+		for _, ign := range []int{0, 2} {
+			in = &caseIn{Ign: ign}
+			in.Sections[0] = &sectionT{nil, {{1, 8, 1, true, g.nextPay()}}, nil}
+			in.Sections[1] = &sectionT{nil, {{1, 8, 2, true, g.nextPay()}}, nil}
+			in.Sections[2] = &sectionT{nil, {{1, 8, 3, true, g.nextPay()}}, nil}
+			c = mkCase(in, nil)
+			c.Class = "corpus"
+			w.Add(c)
+		}
+		// a create-only change never consults the data source: nil interface
+		in = &caseIn{NilDS: true}
+		in.Sections[0] = &sectionT{{{0, 1, 2, false, g.nextPay()}}, {{1, 2, 1, false, g.nextPay()}}, {{2, 3, 1, true, g.nextPay()}}}
+		c = mkCase(in, nil)
+		c.Class = "corpus"
+		w.Add(c)
 		// 16 nodes in one section, the first ones answering last
 		in = &caseIn{}
 		s := &sectionT{}
@@ -771,6 +932,7 @@ func main() {
 	}
 	for i := 0; i < nChange; i++ {
 		in := g.genCase(4)
+		g.stampAll(in)
 		c := mkCase(in, nil)
 		n := 0
 		for _, s := range in.Sections {
@@ -792,6 +954,7 @@ func main() {
 		h, class := g.history(k, 77, v)
 		w.Count(class)
 		in.DS = []dsEntry{h}
+		g.stampAll(in)
 		c := mkCase(in, nil)
 		c.Class = "single"
 		w.Add(c)
@@ -803,13 +966,22 @@ func main() {
 		w.Add(c)
 	}
 	for i := 0; i < nRepeat; i++ {
-		c := mkCase(g.genRepeated(), nil)
+		rin := g.genRepeated()
+		g.stampAll(rin)
+		c := mkCase(rin, nil)
 		c.Class = "repeated-element"
 		w.Add(c)
 	}
 	for i := 0; i < nExtreme; i++ {
 		c := mkCase(g.genExtreme(), nil)
 		c.Class = "extreme-ids-and-versions"
+		w.Add(c)
+	}
+	for i := 0; i < nAlias; i++ {
+		in := g.genAliased()
+		g.stampAll(in)
+		c := mkCase(in, nil)
+		c.Class = "modify-list-aliases-history"
 		w.Add(c)
 	}
 
